@@ -181,11 +181,11 @@ func VerifPatchChain() {
 		version string
 		vulns   []string
 	}{
-		"A":         {"2.0.0", []string{"B"}},
-		"A+B":       {"3.0.0", []string{"C"}},
-		"A+B+C":     {"4.0.0", []string{"D", "E"}},
-		"A+B+C+D":   {"5.0.0", nil},
-		"A+B+C+E":   {"6.0.0", nil},
+		"A":       {"2.0.0", []string{"B"}},
+		"A+B":     {"3.0.0", []string{"C"}},
+		"A+B+C":   {"4.0.0", []string{"D", "E"}},
+		"A+B+C+D": {"5.0.0", nil},
+		"A+B+C+E": {"6.0.0", nil},
 	}
 	var calls []string
 	var bk sync.Mutex
